@@ -21,7 +21,7 @@ EXPLANATION += (  # round-3 supplement
     ' U6 covers every parser::meta::Span built in the crate (constant parts are reviewed sites). U7 the default chain of `match` is generated only if some variant lacks an arm of its own.'
 )
 EXPLANATION += (
-    ' U8 every span is converted to a character range with the text of the file the span itself cites (the same span expression selects the file name, is converted and selects the text; spans of one parse error and its hints come from one parser run). U9 who may panic explicitly on the compile path: only ice! and reviewed invariant sites.'
+    ' U8 every span is converted to a character range with the text of the file the span itself cites (the same span expression selects the file name, is converted and selects the text; spans of one parse error and its hints come from one parser run). U9 who may panic explicitly on the compile path: only ice! and reviewed invariant sites. U10 termination of the import fixpoint: the no-progress test compares the count after a round with the count taken at the start of the same round.'
 )
 ASSUMPTIONS = [
     "std's documented panic conditions for str slicing",
@@ -659,9 +659,64 @@ def rule_u9(F):
     return r
 
 
+def rule_u10(F):
+    """Termination of the import fixpoint.  TypeChecker::imports repeats `retain(unresolved)` until nothing is left or a round makes
+    no progress.  The rounds terminate only if the no-progress test compares the number of unresolved imports after the round with
+    the number at the START OF THE SAME ROUND: then every round that continues has strictly fewer left.  (Compared with a length
+    taken once before the loop, a round that resolves nothing new is not noticed as soon as one earlier round resolved something -
+    compilation hangs on `import Option.Some; import Option.Nope;`.)"""
+    r = RuleResult("C06.U10", "the import fixpoint compares the unresolved count after a round with the count at the start of that round", floor=1)
+    ps = [p for p in F.paths() if p.endswith("TypeChecker::imports")]
+    if not ps:
+        r.missing("TypeChecker::imports")
+        return r
+    b = F.body(ps[0])
+    defs = mir.Defs(b)
+    dom = mir.dominators(b)
+    loops = mir.natural_loops(b)
+    shrink = [bi for bi, t in mir.calls(b) if hir.last(mir.callee_def(t) or "") in ("retain", "retain_mut", "extract_if", "drain_filter")]
+    if not shrink:
+        r.missing("the call that removes resolved imports (Vec::retain) in TypeChecker::imports")
+        return r
+    lens = {bi for bi, t in mir.calls(b) if hir.last(mir.callee_def(t) or "") == "len"}
+    found = 0
+    for sb in shrink:
+        mine = [(h, nodes) for h, nodes in loops if sb in nodes]
+        if not mine:
+            r.missing("a loop around the retain call")
+            continue
+        h, nodes = max(mine, key=lambda x: len(x[1]))
+        for bi in sorted(nodes):
+            for st in b.blocks[bi]["stmts"]:
+                if st["k"] != "assign" or st["rv"]["k"] != "bin" or st["rv"].get("op") not in ("Eq", "Ne", "Lt", "Le", "Gt", "Ge"):
+                    continue
+                a, c = st["rv"]["a"], st["rv"]["b"]
+                if not (mir.is_place_op(a) and mir.is_place_op(c)):
+                    continue
+                la = mir.back_calls(b, defs, a[1][0]) & lens
+                lc = mir.back_calls(b, defs, c[1][0]) & lens
+                if not la or not lc:
+                    continue
+                after = mir.reachable_from(b, sb)
+                post = [x for x in (la | lc) if x in after and x in nodes and sb in dom[x]]
+                pre = [x for x in (la | lc) if x not in post]
+                if not post or not pre:
+                    continue
+                found += 1
+                in_round = all(x in nodes and x in dom[sb] for x in pre)
+                r.inst("no-progress test line %s" % st.get("line"), {"line": st.get("line"), "count_before_taken_inside_the_round": in_round})
+                if not in_round:
+                    r.bad(b.path, "no-progress test against a count from outside the round", relfile(b.file), st.get("line"),
+                          "the number of unresolved imports after a round is compared with a count that is not taken at the start of the same round: after one successful round a later round "
+                          "without progress is no longer detected and the loop never ends (compilation hangs instead of reporting the unresolvable import)")
+    if not found:
+        r.missing("the comparison of the unresolved counts before and after a round in TypeChecker::imports")
+    return r
+
+
 def rules(ctx):
     F = ctx["F"]
-    return [rule_u1(F), rule_u2(F), rule_u3(F), rule_u3b(F), rule_u4(F), rule_u5(F), rule_u6(F), rule_u7(F), rule_u8(F), rule_u9(F)]
+    return [rule_u1(F), rule_u2(F), rule_u3(F), rule_u3b(F), rule_u4(F), rule_u5(F), rule_u6(F), rule_u7(F), rule_u8(F), rule_u9(F), rule_u10(F)]
 
 
 def canary(C):
